@@ -10,7 +10,7 @@ _reg('jit', ['J1'])
 _reg('recip', ['R1', 'R2', 'R3'])
 _reg('api', ['H1', 'D2', 'I7'])
 _reg('life', ['H6', 'H7', 'H3'])
-_reg('sshash', ['S4', 'D1', 'S1'])
+_reg('sshash', ['S4', 'D1', 'S1', 'S5'])
 _reg('vmloop', ['I8'])
 _reg('foot', ['F1'])
 
@@ -49,7 +49,7 @@ PROPS = {
  'C03': dict(level='other', lemmas=['H3', 'H1', 'H6'],
    files=['src/randomx.cpp', 'src/virtual_machine.cpp', 'src/virtual_machine.hpp', 'src/vm_compiled_light.cpp', 'src/vm_interpreted_light.cpp', 'src/vm_compiled.cpp', 'src/dataset.hpp', 'src/aes_hash.cpp'],
    explanation='TODO', trusted=[], outside=[]),
- 'C09': dict(level='translation_validation', lemmas=['S4', 'S1'],
+ 'C09': dict(level='translation_validation', lemmas=['S4', 'S1', 'S5'],
    files=['src/superscalar.cpp', 'src/superscalar.hpp', 'src/superscalar_program.hpp', 'src/blake2_generator.cpp', 'src/dataset.cpp', 'src/jit_compiler_x86.cpp', 'src/reciprocal.c', 'doc/specs.md'],
    explanation='TODO', trusted=[], outside=[]),
  'C07': dict(level='other', lemmas=['I4', 'I6', 'I1', 'J1'],
@@ -57,5 +57,14 @@ PROPS = {
    explanation='TODO', trusted=[], outside=[]),
  'C14': dict(level='other', footprint=True, max_jobs_per_lemma=6, lemmas=['F1', 'H6', 'H7', 'I8', 'I1', 'J1', 'D1', 'D2', 'S1', 'S4', 'A5', 'A2', 'B2', 'B3', 'H1', 'H3', 'G4'],
    files=['src/randomx.cpp', 'src/virtual_machine.cpp', 'src/dataset.cpp', 'src/vm_interpreted_light.cpp', 'src/vm_compiled_light.cpp', 'src/superscalar.cpp', 'src/soft_aes.cpp', 'src/cpu.cpp', 'src/jit_compiler_x86_static.S'],
+   explanation='TODO', trusted=[], outside=[]),
+ 'C02': dict(level='other', lemmas=['H1', 'F1', 'I7', 'I8', 'I1', 'B1', 'B2', 'B3', 'B4', 'A1', 'A2', 'A3', 'A5', 'S1', 'S4', 'S5', 'D1', 'G1', 'G4', 'R1'],
+   files=['doc/specs.md', 'src/randomx.cpp', 'src/virtual_machine.cpp', 'src/vm_interpreted.cpp', 'src/bytecode_machine.cpp', 'src/bytecode_machine.hpp', 'src/aes_hash.cpp', 'src/dataset.cpp', 'src/superscalar.cpp', 'src/blake2_generator.cpp', 'src/argon2_core.c', 'src/argon2_ref.c', 'src/blake2/blake2b.c', 'src/configuration.h'],
+   explanation='TODO', trusted=[], outside=[]),
+ 'C01': dict(level='other', lemmas=['J1', 'I1', 'I8', 'A2', 'A3', 'A5', 'D1', 'D2', 'S4', 'G2', 'G4', 'H1', 'H7'],
+   files=['src/randomx.cpp', 'src/vm_interpreted.cpp', 'src/vm_interpreted_light.cpp', 'src/vm_compiled.cpp', 'src/vm_compiled_light.cpp', 'src/virtual_machine.cpp', 'src/jit_compiler_x86.cpp', 'src/jit_compiler_x86_static.S', 'src/aes_hash.cpp', 'src/soft_aes.cpp', 'src/dataset.cpp'],
+   explanation='TODO', trusted=[], outside=[]),
+ 'C06': dict(level='other', lemmas=['I1', 'J1', 'I8', 'I7', 'D1', 'D2', 'A5', 'B2', 'B3', 'H1', 'S4', 'G4'],
+   files=['src/common.hpp', 'src/bytecode_machine.hpp', 'src/bytecode_machine.cpp', 'src/vm_interpreted.cpp', 'src/virtual_machine.cpp', 'src/jit_compiler_x86.cpp', 'src/jit_compiler_x86_static.S', 'src/dataset.cpp', 'src/randomx.cpp'],
    explanation='TODO', trusted=[], outside=[]),
 }
